@@ -49,9 +49,21 @@ func TestDriver(t *testing.T) {
 			if idx >= from {
 				var sc Scenario
 				if e := json.Unmarshal(line, &sc); e != nil {
-					t.Fatalf("scenario %d: %v", idx, e)
+					t.Fatalf("verif-harness: scenario %d: %v", idx, e)
 				}
-				runScenario(t, &sc)
+				if sc.Runner != "" {
+					r, ok := runners[sc.Runner]
+					if !ok {
+						t.Fatalf("verif-harness: unknown runner %q", sc.Runner)
+					}
+					tr.mu.Lock()
+					tr.sc = sc.Sc
+					tr.start = time.Time{}
+					tr.mu.Unlock()
+					r(t, &sc, line)
+				} else {
+					runScenario(t, &sc)
+				}
 			}
 			idx++
 		}
